@@ -260,7 +260,13 @@ def _hook_protocol(f: Fn, hook: str) -> Tuple[Optional[str], Optional[str], Opti
                and f.fi.name.endswith(x.func.attr.lstrip('_'))]
         for x in rec:
             gs = [G.canon_atom(b.ast, b.pol) for b in f.cfg.guard_nodes(f.nid(x)) if any(y is lo for y in S._ancestors_list(b.ast))]
-            flt = 'registered-only' if len(gs) == 1 and gs[0][1] and ' in ' in gs[0][0] else 'other:%s' % gs
+            reg = [t for t, pol in gs if pol and ' in ' in t]
+            # "not visited yet" (a set handed down through a parameter): each class is applied once, also in a diamond
+            vis = [t for t, pol in gs if not pol and ' in ' in t and t.split(' in ', 1)[1] in f.fi.params]
+            if len(reg) == 1 and len(reg) + len(vis) == len(gs) and len(vis) <= 1:
+                flt = 'registered-only' + ('+visited' if vis else '')
+            else:
+                flt = 'other:%s' % gs
     return own, rng, flt, cls_
 
 
@@ -275,7 +281,8 @@ def r05_8_hook_symmetry(ctx, rid='R05.8'):
     r.check(pa[0] == 'own-dict' and pb[0] == 'own-dict', 'both hooks are looked up in the class\'s own __dict__',
             'yatiml:hook-symmetry:own-definition', b.loc(), 'savorize is applied under `%s`, sweeten under `%s`: a subclass that inherits a '
             'non-idempotent sweeten/savorize pair gets one of them applied twice and load(dumps(x)) != x' % (pa[0], pb[0]))
-    r.check(pa[1] == pb[1] == 'CLS.__bases__' and pa[2] == pb[2] == 'registered-only', 'both recurse into the registered direct bases first',
+    r.check(pa[1] == pb[1] == 'CLS.__bases__' and pa[2] == pb[2] and str(pa[2]).startswith('registered-only'),
+            'both recurse into the registered direct bases first (%s)' % pa[2],
             'yatiml:hook-symmetry:ancestors', b.loc(), 'savorize walks %s (%s), sweeten walks %s (%s): ancestors\' hooks are applied a different '
             'number of times on the two sides' % (pa[1], pa[2], pb[1], pb[2]))
     r.done()
